@@ -47,18 +47,16 @@ Definition hb_h_minus (Dx : nat) (w : vec) (b0 : F) : factor :=
 Definition hb_quad (u : measure) (N : nat) (aM ayb : vec) (n : nat) : LS * F :=
   let A := M3 1 1 (fun _ => row1 (vopp aM)) in let a := V2 N (fun k => vec1 (ayb k)) in
   (log_mass u n, int_quadratic_inner u A a A a n).
-(* ln (mass * m) for a positive expectation m:  ln m = 1/2 ln m^2 *)
-Definition hb_ln (v : LS * F) : LS := v.1 + hln LS (v.2 * v.2).
-
-(* exp link: ln of quadratic_integral[n] *)
-Definition hb_exp_quad_ln (p : measure) (N Dx : nat) (w : vec) (b0 : F) (om lc th aM ayb : vec) (n : nat) : LS :=
-  hb_ln (hb_quad (hadamard true p (hb_exp_factor N Dx w b0 om lc th)) N aM ayb n).
-(* cosh-1 link: quadratic_integral = quadratic_plus + quadratic_minus - quadratic_1; the three logarithms *)
-Definition hb_cosh_quad_ln (p : measure) (N Dx : nat) (w : vec) (b0 : F) (om lc th aM ayb : vec) (n : nat) : LS * LS * LS :=
+(* exp link: (log-mass, expectation) of quadratic_integral[n] = mass * expectation *)
+Definition hb_exp_quad (p : measure) (N Dx : nat) (w : vec) (b0 : F) (om lc th aM ayb : vec) (n : nat) : LS * F :=
+  hb_quad (hadamard true p (hb_exp_factor N Dx w b0 om lc th)) N aM ayb n.
+(* cosh-1 link: quadratic_integral = quadratic_plus + quadratic_minus - quadratic_1; the three (log-mass, expectation) pairs *)
+Definition hb_cosh_quad (p : measure) (N Dx : nat) (w : vec) (b0 : F) (om lc th aM ayb : vec) (n : nat)
+    : (LS * F) * (LS * F) * (LS * F) :=
   let lbm := hadamard true p (hb_cosh_factor N Dx w b0 om lc th) in
-  (hb_ln (hb_quad (hadamard true lbm (hb_h_plus Dx w b0)) N aM ayb n),
-   hb_ln (hb_quad (hadamard true lbm (hb_h_minus Dx w b0)) N aM ayb n),
-   hb_ln (hb_quad lbm N aM ayb n)).
+  (hb_quad (hadamard true lbm (hb_h_plus Dx w b0)) N aM ayb n,
+   hb_quad (hadamard true lbm (hb_h_minus Dx w b0)) N aM ayb n,
+   hb_quad lbm N aM ayb n).
 
 (* ---- k_func (1139-1146, 1214-1220): expectation of the upper bound of ln(1 + link(h)) under the density p_x,
         component r; om, lc, th at omega_dagger.  Rational part; the exp link adds ln 2 ---- *)
